@@ -236,6 +236,7 @@ def _rand_seq(rng, n, alpha):
 ALPHAS = {
 	'acgt': b'ACGT', 'acgtn': b'ACGTN', 'mixed': b'ACGTacgtNn', 'iupac': b'ACGTRYKMSWBDHVNacgtn-',
 	'bytes': bytes(range(256)), 'at': b'AT', 'lower': b'acgt',
+	'ws': b'ACGTACGTacgt \n\t\r',      # text as it comes out of a file: blanks and line breaks inside, before and after the nucleotides
 }
 
 
@@ -290,6 +291,8 @@ def gen_case(rng):
 			else:
 				p = rng.randint(0, len(s) - len(pat))
 			s[p:p + len(pat)] = pat
+		if aname == 'ws' and rng.random() < 0.6:
+			s = bytearray(rng.choice([b' ', b'\n', b'\t \n', b'  '])) + s + bytearray(rng.choice([b'', b'\n', b' \n']))
 		seqs.append(bytes(s))
 	return k, prefix, seqs, aname
 
@@ -319,7 +322,7 @@ def _run_classes(sh, ctx, ch):
 		ctx.count(f'alphabet:{aname}')
 		ctx.seen('k_values', k)
 		ctx.seen('prefix_lengths', len(prefix))
-		full = (i % 10 == 0)
+		full = (i % 10 == 0) or aname == 'ws'     # white space must be exercised through the text (str) channel too
 		ch.check(k, prefix, seqs, variants='all' if full else 'rotate', check_find=(i % 3 == 0), sample=(i % 501 == 0))
 
 
@@ -386,7 +389,7 @@ def _run_blocks(sh, ctx, ch):
 
 def finalize(merged, tier, seed, inconclusive):
 	c = merged['counters']
-	need = ['block_boundary_occurrences_planted', 'calls:bytes/default', 'calls:str/set', 'calls:Seq/array', 'calls:bytearray/default', 'find_kmers_calls',
+	need = ['block_boundary_occurrences_planted', 'alphabet:ws', 'calls:bytes/default', 'calls:str/set', 'calls:Seq/array', 'calls:bytearray/default', 'find_kmers_calls',
 	        'cases_match_flush_with_end', 'cases_overlapping_matches', 'cases_with_dropped_nonACGT_kmer', 'cases_both_strands', 'failing_calls_raised']
 	for n in need:
 		if c.get(n, 0) == 0:
